@@ -1,6 +1,7 @@
 package main
 
 import (
+	"sync"
 	"path/filepath"
 	"io"
 	"errors"
@@ -488,4 +489,78 @@ func pipeDetect(x []byte, cut int, pause time.Duration) (*mimetype.MIME, error, 
 	io.Copy(io.Discard, pr)
 	pr.Close()
 	return m, derr, true
+}
+
+// limitStress: Detect on byte slices without spare capacity while another goroutine moves the limit between a value
+// below their length and one far above their capacity.  Every call must return normally with one of the two results
+// a sequential call gives under either limit (the truncation decision and the cut must come from one reading of the
+// limit).  Returns a description of the first failure, or "".
+func limitStress(d time.Duration) string {
+	inputs := [][]byte{
+		append(make([]byte, 0, 64), []byte("{\"a\":[1,2,3],\"b\":{\"c\":\"dddddddddddddddddddddddddddddddddddddd\"}}  ")[:64]...),
+		append(make([]byte, 0, 48), []byte("a,b,c\n1,2,3\n4,5,6\n7,8,9\n10,11,12\n13,14,15\n16,17,18\n")[:48]...),
+		append(make([]byte, 0, 40), []byte("%PDF-1.7 plain rest of a small document....")[:40]...),
+	}
+	lo, hi := uint32(4), uint32(1<<30)
+	want := make([]map[string]bool, len(inputs))
+	for i, x := range inputs {
+		want[i] = map[string]bool{}
+		for _, l := range []uint32{lo, hi} {
+			if m, pan := detectAt(x, l); pan == nil && m != nil {
+				want[i][chainFull(m)] = true
+			}
+		}
+	}
+	stop := make(chan struct{})
+	var fail atomic.Value
+	var wg sync.WaitGroup
+	wg.Add(1)
+	go func() {
+		defer wg.Done()
+		for {
+			select {
+			case <-stop:
+				return
+			default:
+			}
+			mimetype.SetLimit(lo)
+			mimetype.SetLimit(hi)
+		}
+	}()
+	for g := 0; g < 4; g++ {
+		wg.Add(1)
+		go func(g int) {
+			defer wg.Done()
+			defer func() {
+				if e := recover(); e != nil {
+					fail.CompareAndSwap(nil, fmt.Sprintf("Detect panics while SetLimit alternates between %d and %d: %v (input of %d bytes, capacity %d)", lo, hi, e, len(inputs[g%len(inputs)]), cap(inputs[g%len(inputs)])))
+				}
+			}()
+			for {
+				select {
+				case <-stop:
+					return
+				default:
+				}
+				i := g % len(inputs)
+				m := mimetype.Detect(inputs[i])
+				if m == nil {
+					fail.CompareAndSwap(nil, "Detect returns nil while SetLimit alternates")
+					return
+				}
+				if got := chainFull(m); !want[i][got] {
+					fail.CompareAndSwap(nil, fmt.Sprintf("while SetLimit alternates between %d and %d Detect returns %q, which a sequential call returns under neither limit (input %s)", lo, hi, got, hx(inputs[i])))
+					return
+				}
+			}
+		}(g)
+	}
+	time.Sleep(d)
+	close(stop)
+	wg.Wait()
+	mimetype.SetLimit(3072)
+	if f := fail.Load(); f != nil {
+		return f.(string)
+	}
+	return ""
 }
